@@ -1,7 +1,7 @@
 CONSTANTS
   Variant = "ref"
   StopOrders = {0}
-  Family = "simmix"
+  Family = "nest"
   MaxDepth = 0
   Depth = 24
 SPECIFICATION GSpec
